@@ -282,8 +282,14 @@ def check_case(fx, p, armed_name, cls, clsname, args, attrs, sername, kind, rec,
             rec.violation("next-call-wrong-reply", "call after %s returned a wrong token" % clsname, pay)
         else:
             rec.count("next_call_ok")
-    except P.errors.CommunicationError:
-        rec.count("next_call_comm_error")
+    except P.errors.CommunicationError as x:
+        if isinstance(exc, P.errors.CommunicationError):
+            # what the caller saw WAS a communication error (a SerializeError relayed by the daemon, which drops the connection after
+            # answering): the proxy knows its connection is gone and must serve the next call over a fresh one
+            rec.violation("next-call-fails-after-communication-error", "%s %s: the call raised %s (a communication error); the next call on the same proxy failed too: %r" % (
+                sername, kind, clsname, x), pay)
+        else:
+            rec.count("next_call_comm_error")
     except Exception as x:
         rec.violation("next-call-fails", "call after remote %s failed: %r" % (clsname, x), pay)
 
